@@ -164,6 +164,23 @@ def run(run):
     if any(not isinstance(s, bytes) or len(s) != 16 for s in secrets):
         run.violation('secret/length', 'shared secret is not 16 bytes',
                       {'lengths': sorted({len(s) for s in secrets})})
+    # gross structure only (randomness quality is not observable): no
+    # repeated halves, every byte position varies, no two positions coupled
+    good = [s for s in secrets if isinstance(s, bytes) and len(s) == 16]
+    if good:
+        if any(s[:8] == s[8:] for s in good):
+            run.violation('secret/structure', 'shared secret repeats its first'
+                          ' half', {'example': good[0]})
+        poor = [i for i in range(16)
+                if len({s[i] for s in good}) < 100]
+        if poor:
+            run.violation('secret/structure', 'some byte positions of the '
+                          'secret barely vary', {'positions': poor})
+        coupled = [(i, j) for i in range(16) for j in range(i + 1, 16)
+                   if all(s[i] == s[j] for s in good)]
+        if coupled:
+            run.violation('secret/structure', 'byte positions of the secret '
+                          'are always equal', {'pairs': coupled[:4]})
     if len(set(secrets)) != len(secrets):
         run.violation('secret/freshness', 'shared secrets repeat',
                       {'distinct': len(set(secrets))})
